@@ -122,8 +122,19 @@ func act(id string, args ...interface{}) error {
 			}
 			_, err := sh.Exec(nil, failWriter{}, os.Stderr, "sh", "-c", "echo data")
 			return err
-		case "kill":
-			syscall.Kill(os.Getpid(), syscall.SIGKILL)
+		case "kill", "killonce":
+			// kill:<signal>      the compiled magefile process itself dies from that signal, in this body
+			// killonce:<signal>  only the first time this body runs for the marker file VERIF_MARK (a later
+			//                    run of the same command line completes)
+			if parts[0] == "killonce" {
+				mark := os.Getenv("VERIF_MARK") + "." + id
+				if _, err := os.Stat(mark); err == nil {
+					return nil
+				}
+				os.WriteFile(mark, []byte("killed once\n"), 0o644)
+			}
+			os.Stdout.Sync()
+			syscall.Kill(os.Getpid(), syscall.Signal(code))
 			time.Sleep(10 * time.Second)
 		case "deps", "sdeps", "ctxdeps":
 			var fs []interface{}
@@ -283,6 +294,8 @@ def abs_body(fid, behs):
         return ["shcopy"] if he else ["perr"]
     if k == "osexit":
         return ["exit", b[1]]
+    if k in ("kill", "killonce"):
+        return ["killed"]
     if k in ("deps", "ctxdeps", "sdeps"):
         return ["deps", k == "sdeps", [abs_body(d, behs) for d in b[1]]]
     raise ValueError(k)
@@ -312,6 +325,10 @@ def body_term(a):
         return "BShCopyErr"
     if k == "exit":
         return "(BOsExit %s)" % coq_Z(a[1])
+    if k == "killed":
+        # the process ends inside this body: for the count of started bodies it is "the body ends the process"; the
+        # status does not come from the program (route RMageChild CSignaled: the front end sees a signaled child)
+        return "(BOsExit 0)"
     if k == "deps":
         return "(BDeps %s %s)" % (coq_bool(a[1]), coq_list([body_term(x) for x in a[2]]))
     raise ValueError(k)
@@ -336,6 +353,22 @@ def o_exits(fid, behs):
             if o_status(d, behs) != 0:
                 return None
     return None
+
+
+def o_kills(fid, behs):
+    """does running fid end the compiled magefile process by a signal"""
+    b = behs.get(fid, ("ok",))
+    if b[0] in ("kill", "killonce"):
+        return True
+    if b[0] in ("deps", "ctxdeps"):
+        return any(o_kills(d, behs) for d in b[1])
+    if b[0] == "sdeps":
+        for d in b[1]:
+            if o_kills(d, behs):
+                return True
+            if o_status(d, behs) != 0:
+                return False
+    return False
 
 
 def o_status(fid, behs):
@@ -402,6 +435,10 @@ def oracle_line(mentions, behs, msg=None):
         if m["kind"] != "run":
             return 2, ran, {"unknown": ["Unknown target"], "missing": ["not enough arguments"], "badarg": ["can't convert argument"]}[m["kind"]]
         ran += 1
+        if o_kills(m["id"], behs):
+            # the program did not complete: not 0 (it has no exit status of its own; the text names no class for it),
+            # mage says so on stderr, nothing after it runs - and nothing runs twice
+            return "nonzero", ran, []
         s = o_status(m["id"], behs)
         if s != 0:
             return s, ran, o_tokens(m["id"], behs, msg)
@@ -472,6 +509,7 @@ def scen(fa=None, bd=None, start=True, pr=None, init_err=False, clean_err=False,
 SAMPLE_CODES = [1, 2, 3, 5, 7, 37, 64, 99, 100, 125, 126, 127, 128, 129, 130, 137, 143, 200, 250, 254, 255]
 CODE_KINDS = ["fatal", "fatalf", "panic-fatal", "osexit", "sh", "sh-dep", "deps-equal", "deps-diff", "deps-sametext-equal", "deps-sametext-diff"]
 SAME_TEXT = "step failed"
+KILL_SIGNALS = [9, 15, 1]          # SIGKILL, SIGTERM, SIGHUP: the Go runtime dies from them
 PLAIN_KINDS = ["error", "panic-error", "panic-string", "panic-int", "shnotran", "shsig", "shcopy"]
 LEAF_DEPS = ["d1", "d2", "d3", "d4", "d5", "d6"]
 
@@ -526,6 +564,22 @@ def gen_failure(rng, fid, kind, c, behs, shspec=None):
         behs[fid] = (kind, c)
     elif kind in PLAIN_KINDS:
         behs[fid] = plain_beh(rng, kind, shspec)
+    elif kind in ("kill", "killonce"):
+        behs[fid] = (kind, shspec[1] if shspec else rng.choice(KILL_SIGNALS))
+    elif kind == "kill-dep":
+        ds = rng.sample(LEAF_DEPS, rng.choice([1, 2, 3]))
+        for i, d in enumerate(ds):
+            behs[d] = ((shspec[0] if shspec else rng.choice(["kill", "killonce"])), shspec[1] if shspec else rng.choice(KILL_SIGNALS)) if i == 0 \
+                else rng.choice([("ok",), ("ok",), ("error",), ("fatal", 3)])
+        if ds[0] != ds[-1] and rng.random() < 0.5:
+            ds = ds[1:] + ds[:1]
+        style = rng.choice(["deps", "ctxdeps", "sdeps"])
+        if style == "sdeps":
+            # serial: everything before the killer completes
+            for d in ds:
+                if behs[d][0] not in ("kill", "killonce"):
+                    behs[d] = ("ok",)
+        behs[fid] = (style, ds)
     elif kind == "plain-dep":
         # a dependency fails with a plain error / a sh command without an exit code of its own (shspec = (kind, arg, entry))
         ds = rng.sample(LEAF_DEPS, rng.choice([1, 1, 2, 3]))
@@ -674,8 +728,15 @@ def line_cases(ctx):
             l = gen_line(rng, kind, 1, shspec=sp)
             l["routes"] = "all"
             lines.append(l)
+    # the compiled magefile process itself dies from a signal: in a target / in a dependency, every run / only the first
+    # run (marker file), several signals; through the front end (default and hash mode)
+    for rep in range(1 if ctx.quick else 4):
+        for sig in KILL_SIGNALS:
+            for how in ("kill", "killonce"):
+                for kind in (how, "kill-dep"):
+                    lines.append(gen_line(rng, kind, 0, shspec=(how, sig)))
     # every position of a three-target line for a few kinds
-    for kind in ("fatal", "error", "unknown", "deps-diff", "deps-sametext-diff", "sh", "sh-dep", "shsig", "shcopy", "plain-dep"):
+    for kind in ("fatal", "error", "unknown", "deps-diff", "deps-sametext-diff", "sh", "sh-dep", "shsig", "shcopy", "plain-dep", "killonce", "kill-dep"):
         for p in range(3):
             for _ in range(20):
                 l = gen_line(rng, kind, rng.choice(codes), npos=p)
@@ -694,14 +755,17 @@ def line_to_cases(ctx, l, idx):
         ments.append(["run", abs_body(m["id"], behs)] if m["kind"] == "run" else [m["kind"]])
     want = oracle_line(l["mentions"], behs, l.get("msg"))
     out = []
+    killed = want[0] == "nonzero"
     routes = ["compiled", "hash"]
     mage_share = 0.18 if ctx.quick else 0.5
     if rng.random() < (0.5 if l["fail"] in ("unknown", "missing", "badarg") else mage_share) or l.get("routes") == "all":
         routes.append("mage")
+    if killed:
+        routes = ["mage", "hash"]       # a -compile'd binary killed by a signal has no exit status to look at
     for r in routes:
         c = dict(l)
         c.update(route=r, proj="main", args=list(l["words"]), env=({"VERIF_MSG": l["msg"]} if l.get("msg") else {}), want={"exit": want[0], "ran": want[1], "tokens": want[2]},
-                 scen=scen(fa=fargs(nargs=len(l["words"]), hashfast=(r == "hash")), pr=prog(mentions=ments)), line=idx)
+                 scen=scen(fa=fargs(nargs=len(l["words"]), hashfast=(r == "hash")), pr=prog(mentions=ments), child=("signaled" if killed else None)), line=idx)
         out.append(c)
     return out
 
@@ -786,8 +850,8 @@ def table_cases(ctx):
     add("-l, stdout cannot be written", "main", "mage", ["-l"], "nonzero", scen(fa=fargs(), pr=prog(list=True, list_err=True)), special="devfull", tokens=["no space left"])
     add("list by default, stdout cannot be written", "main", "mage", [], "nonzero", scen(fa=fargs(), pr=prog(list_err=True)), special="devfull", tokens=["no space left"])
     add("cached binary cannot be started", "main", "hash", ["t1"], 1, scen(fa=fargs(nargs=1, hashfast=True), start=False, pr=prog(mentions=[T1])), special="garbage", tokens=["failed to run"])
-    add("target killed by a signal", "main", "mage", ["t1", "t2"], None, scen(fa=fargs(nargs=2), child="signaled", pr=prog(mentions=[T1])), special="kill", oracle=False,
-        behs={"T1": ["kill"]}, want_ran=1)
+    add("target killed by a signal", "main", "mage", ["t1", "t2"], "nonzero", scen(fa=fargs(nargs=2), child="signaled", pr=prog(mentions=[["run", ["killed"]], T1])),
+        behs={"T1": ["kill", 9]}, tokens=[], want_ran=1)
     # --- magefiles cannot be found, parsed or compiled -> 1
     for args in (["t1"], [], ["-l"]):
         add("no magefiles %s" % args, "empty", "mage", args, 1, scen(fa=fargs(nargs=len([a for a in args if not a.startswith("-")])), bd=build(nofiles=True)), tokens=["No .go files"])
@@ -836,6 +900,8 @@ def table_cases(ctx):
 
 # ---------------------------------------------------------------- running
 BIN_LOCK = threading.Lock()
+MARK_LOCK = threading.Lock()
+MARK_N = [0]
 
 class Slot:
     """one private copy of a project: its directory, its caches, its compiled binary"""
@@ -883,6 +949,11 @@ def exec_case(slot, c):
     behs = {k: tuple(v) for k, v in (c.get("behs") or {}).items()}
     if behs:
         env["VERIF_SCEN"] = spec_string(behs)
+        if any(b[0] == "killonce" for b in behs.values()):
+            with MARK_LOCK:
+                MARK_N[0] += 1
+                mark = os.path.join(m.ctx.tmp, "mark-%d" % MARK_N[0])
+            env["VERIF_MARK"] = mark          # fresh for every run of a case: "first run" means first run of this command
     special = c.get("special")
     route = c["route"]
     note = {}
@@ -945,6 +1016,9 @@ def judge(c, ob):
             bad.append(("exit-status", "exit status 0 although the command failed"))
     elif ob["rc"] != w["exit"]:
         bad.append(("exit-status", "exit status %d, the property sentence says %d" % (ob["rc"], w["exit"])))
+    dup = sorted(set(x for x in ob["started"] if ob["started"].count(x) > 1))
+    if dup:
+        bad.append(("body-started-twice", "bodies started more than once in one invocation: %s (CALL lines: %s)" % (dup, ob["started"])))
     if w.get("ran") is not None and ob["ran"] != w["ran"]:
         bad.append(("targets-run", "%d requested targets started (%s), expected %d" % (ob["ran"], ob["started"], w["ran"])))
     if w["exit"] != 0 and w.get("tokens") is not None:
